@@ -32,7 +32,7 @@ ASSUMPTIONS = [
 ]
 TRUSTED = ["harness/vloop.py"]
 
-BODY = b"hello world!"
+BODY0 = b"hello world!"  # first byte 0x68: low nibble 8, like a zlib (RFC 1950) header
 CHUNKINGS = {"11+1": [11, 1], "5+7": [5, 7], "12": [12], "1x3+9": [1, 1, 1, 9]}
 
 
@@ -45,13 +45,18 @@ class _Stub:
 
     def __init__(self, encoding=None, suppress_deflate_header=False, **kw):
         self.pending = b""
-        self.eof = False
         self.fed = 0
+        self.encoding = encoding
+        self.raw = suppress_deflate_header
 
     def decompress_sync(self, data, max_length=0):
         _Stub.calls.append((len(data), max_length))
         if _Stub.fail_at is not None and self.fed + len(data) > _Stub.fail_at:
             raise ValueError("corrupt stream")
+        if self.fed == 0 and len(data) and self.encoding == "deflate" and not self.raw and data[0] & 0xF != 8:
+            # contract of zlib.decompressobj(wbits=MAX_WBITS): a stream without the RFC 1950 header
+            # (CM nibble 8) is refused with "incorrect header check"
+            raise ValueError("incorrect header check")
         self.fed += len(data)
         self.pending = self.pending + b"".join(bytes([b]) * _Stub.ratio for b in data)
         if max_length and max_length > 0:
@@ -64,11 +69,16 @@ class _Stub:
     def data_available(self):
         return bool(self.pending)
 
+    @property
+    def eof(self):
+        """end-of-stream marker seen: the whole (12 byte) body has been fed"""
+        return self.fed >= len(BODY0)
+
     def flush(self, *a):
         return b""
 
 
-def body_flow(ctx, framing="chunked", compressed=False, corrupt=False, chunkings=None):
+def body_flow(ctx, framing="chunked", compressed=False, corrupt=False, chunkings=None, encoding="gzip", light=False):
     import logging
 
     import aiohttp
@@ -78,14 +88,17 @@ def body_flow(ctx, framing="chunked", compressed=False, corrupt=False, chunkings
 
     logging.disable(logging.CRITICAL)
     loop = install(VLoop())
-    limit = ctx.pick("read_bufsize", [2, 4])
-    ratio = ctx.pick("ratio", [1, 3]) if compressed else 1
+    limit = ctx.pick("read_bufsize", [4] if light else [2, 4])
+    ratio = ctx.pick("ratio", [3] if light else [1, 3]) if compressed else 1
     _Stub.ratio = ratio
     _Stub.calls = []
     _Stub.fail_at = 5 if corrupt else None
     hp.ZLibDecompressor = _Stub
     chunking = ctx.pick("chunking", sorted(chunkings or CHUNKINGS)) if framing == "chunked" else "len"
-    hdr = b"HTTP/1.1 200 OK\r\n" + (b"Content-Encoding: gzip\r\n" if compressed else b"")
+    # encoding 'deflate-raw': a deflate body without the zlib header (first byte's low nibble is not 8,
+    # here 'a' = 0x61; the other bodies start with 0x68), which DeflateBuffer must recognise from the first data byte in any segmentation
+    BODY = BODY0 if encoding != "deflate-raw" else b"a" + BODY0[1:]
+    hdr = b"HTTP/1.1 200 OK\r\n" + (b"Content-Encoding: " + encoding.split("-")[0].encode() + b"\r\n" if compressed else b"")
     if framing == "chunked":
         wire = b""
         pos = 0
@@ -205,7 +218,7 @@ def body_flow(ctx, framing="chunked", compressed=False, corrupt=False, chunkings
         r = check(n)
         if r:
             return r
-        op = ctx.pick(f"consumer{step}", ["none", "read1", "readany"])
+        op = ctx.pick(f"consumer{step}", ["none", "readany"] if light else ["none", "read1", "readany"])
         if op != "none" and (pending_read["t"] is None or pending_read["t"].done()) and state["err"] is None:
             trace.append([op])
             pending_read["t"] = asyncio.Task(consume(op), loop=loop)
@@ -238,7 +251,7 @@ def body_flow(ctx, framing="chunked", compressed=False, corrupt=False, chunkings
         loop.run_ready()
         return fail("reader-starves-with-input-pending", queue=len(queue), paused=tr.paused,
                     got=len(state["got"]))
-    tag = f"{framing}:{'gz' if compressed else 'id'}:{'corrupt' if corrupt else 'ok'}"
+    tag = f"{framing}:{({'gzip': 'gz'}.get(encoding, encoding)) if compressed else 'id'}:{'corrupt' if corrupt else 'ok'}"
     if corrupt:
         if state["err"] is None:
             return fail("corrupt-encoding-delivered-as-data", got=state["got"].decode("latin1"))
@@ -322,6 +335,13 @@ def jobs(tier):
                                 params=dict(framing=framing, compressed=compressed, chunkings=cks), limits=lim))
             out.append(dict(name=f"flow-{framing}-{ck}-corrupt", func="body_flow",
                             params=dict(framing=framing, compressed=True, corrupt=True, chunkings=cks), limits=lim))
+    for enc in ("deflate-raw", "deflate-zlib"):
+        for ck in (("1x3+9", "5+7") if quick else sorted(CHUNKINGS)):
+            out.append(dict(name=f"flow-chunked-{ck}-{enc}", func="body_flow",
+                            params=dict(framing="chunked", compressed=True, chunkings=[ck], encoding=enc, light=quick),
+                            limits=lim))
+        out.append(dict(name=f"flow-length-{enc}", func="body_flow",
+                        params=dict(framing="length", compressed=True, encoding=enc, light=quick), limits=lim))
     out.append(dict(name="client-max-size", func="max_size", params={}, limits=lim))
     return out
 
@@ -330,7 +350,7 @@ def twins(tier):
     return [dict(name="twin", func="twin", params={}, limits={"time_limit": 30, "max_paths": 30})]
 
 
-REQUIRED_OUTCOMES = ("chunked:id:ok", "chunked:gz:ok", "length:gz:corrupt", "too-large", "fits")
+REQUIRED_OUTCOMES = ("chunked:id:ok", "chunked:gz:ok", "length:gz:corrupt", "chunked:deflate-raw:ok", "chunked:deflate-zlib:ok", "too-large", "fits")
 
 
 def bounds(tier):
